@@ -84,11 +84,12 @@ pub(crate) fn valid_ident() -> &'static Regex {
     VALID_IDENT.get_or_init(|| {
         // One of:
         // - `*`
-        // - An ident starting with `a-z_\$` and containing other characters `a-z0-9_\$`
+        // - An ident starting with `a-z_` and containing other characters `a-z0-9_\$`
+        //   (`$` may not come first: SQLite and PostgreSQL read `$a` as a parameter)
         //
         // We could replace this with pomsky (regex<>pomsky : sql<>prql)
         // ^ ('*' | [ascii_lower '_$'] [ascii_lower ascii_digit '_$']* ) $
-        Regex::new(r"^((\*)|(^[a-z_\$][a-z0-9_\$]*))$").unwrap()
+        Regex::new(r"^((\*)|(^[a-z_][a-z0-9_\$]*))$").unwrap()
     })
 }
 
